@@ -1113,6 +1113,14 @@ func unmountUnder(dir string) {
 	for _, m := range mps {
 		syscall.Unmount(m, syscall.MNT_DETACH)
 	}
+	// ... and every loop device whose backing file lives below dir (a child that died while a case had one attached)
+	if out, err := exec.Command("losetup", "-a").Output(); err == nil {
+		for _, l := range strings.Split(string(out), "\n") {
+			if i := strings.Index(l, ":"); i > 0 && strings.Contains(l, "("+dir+"/") {
+				exec.Command("losetup", "-d", l[:i]).Run()
+			}
+		}
+	}
 }
 
 // ---- helpers for workers ----
